@@ -119,9 +119,13 @@ class Mod(tokcursor.CursorMod):
             return [(OK, none(), st)]
         if c == "core::str::<impl str>::parse" and n.get("ty", "").startswith("core::result::Result<deb822_lossless::lossy::Deb822"):
             return I.inline(self.facts.fns[ENTRY_KEY], [I.deref_val(st, args[0])], st)
-        if False:
-            if True:
-                pass
+        if c in ("core::mem::take", "core::mem::replace") and args and args[0][0] == "ref" and a0 is not None:
+            if c.endswith("replace"):
+                return [(OK, a0, I.write(st, args[0][1], I.deref_val(st, args[1])))]
+            if a0[0] == "struct" and a0[1] == "__vec":
+                return [(OK, a0, I.write(st, args[0][1], vec(0)))]
+            if a0[0] == "abs" and a0[1] == "lstr":
+                return [(OK, a0, I.write(st, args[0][1], lstr("start")))]
         if a0 is not None and a0[0] == "abs" and a0[1] == "lstr":
             state = a0[2]
             tgt = args[0]
